@@ -1082,3 +1082,52 @@ def eval_cmp_fn(f, pick):
             else:
                 return None
     return None
+
+
+def min_delta(fn, v, base, depth=0, seen=None):
+    """a constant d with v >= base + d on every path (v reached from base only through additions of constants, merges,
+    and inner loops whose own cursor never moves backwards), or None when no such bound is derivable"""
+    if seen is None:
+        seen = set()
+    if isinstance(v, str):
+        v = fn.strip(v)
+    if isinstance(base, str):
+        base = fn.strip(base)
+    if v == base:
+        return 0
+    if not isinstance(v, str) or depth > 40 or v in seen:
+        return None
+    ins = fn.insts.get(v)
+    if ins is None:
+        return None
+    if ins.op in ('add', 'sub'):
+        c = const_int(ins.ops[1])
+        if c is not None:
+            d = min_delta(fn, ins.ops[0], base, depth + 1, seen)
+            return None if d is None else d + (c if ins.op == 'add' else -c)
+        c = const_int(ins.ops[0])
+        if c is not None and ins.op == 'add':
+            d = min_delta(fn, ins.ops[1], base, depth + 1, seen)
+            return None if d is None else d + c
+        return None
+    if ins.op in ('sext', 'zext', 'trunc', 'freeze'):
+        return min_delta(fn, ins.ops[0], base, depth + 1, seen)
+    if ins.op == 'phi':
+        hdr = [l for l in fn.loops if l['header'] == ins.block.id]
+        inc = ins.d['incoming']
+        if hdr:
+            lp = hdr[0]
+            inside = [(val, b) for val, b in inc if b in lp['blocks']]
+            outside = [(val, b) for val, b in inc if b not in lp['blocks']]
+            # an inner loop's cursor: never moves backwards round its own loop, so it is at least its initial value
+            for val, b in inside:
+                d = min_delta(fn, val, ins.id, depth + 1, seen | {v})
+                if d is None or d < 0:
+                    return None
+            ds = [min_delta(fn, val, base, depth + 1, seen | {v}) for val, b in outside]
+        else:
+            ds = [min_delta(fn, val, base, depth + 1, seen | {v}) for val, b in inc if not (isinstance(val, str) and fn.strip(val) == v)]
+        if not ds or any(d is None for d in ds):
+            return None
+        return min(ds)
+    return None
